@@ -37,7 +37,12 @@ mod verif_cex {
         let languages = crate::language_parsers::language_parsers().unwrap();
         let supported: HashSet<&OsString> = languages.keys().collect();
         // (mapping arguments, is every VALUE a supported grammar?)
-        let mappings: [(&[&str], bool); 8] = [
+        let mappings: [(&[&str], bool); 12] = [
+            // a VALUE must be a supported grammar itself: mappings do not chain (the lookup applies one step)
+            (&["cxx=c++", "c++=cpp"], false),
+            (&["c++=cpp", "cxx=c++"], false),
+            (&["cxx=cxx"], false),
+            (&["a=b", "b=a"], false),
             (&[], true),
             (&["cxx=cpp"], true),
             (&["cxx=cpp", "c++=cpp"], true),
@@ -153,7 +158,7 @@ mod verif_cex {
         cex_none(
             "F1",
             cases,
-            "every subset of the 7 validators for -d against 10 -e subsets and vice versa (short and long flags, repeated flags, with and without `list`), 8 -E mapping sets (supported and unsupported targets) x 5 flag situations; 80 command lines naming an unknown validator",
+            "every subset of the 7 validators for -d against 10 -e subsets and vice versa (short and long flags, repeated flags, with and without `list`), 12 -E mapping sets (supported and unsupported targets, chained and self mappings) x 5 flag situations; 80 command lines naming an unknown validator",
         );
     }
 
